@@ -284,6 +284,7 @@ class Check(PropertyCheck):
     def correspondence(self) -> List[Violation]:
         out: List[Violation] = []
         self.stats['distinct_nontrivial'] = 0
+        out += self.check_name_shapes()
         out += self.check_tables()
         out += self.check_exhaustive()
         out += self.check_pairs()
@@ -542,6 +543,42 @@ class Check(PropertyCheck):
                 self.add(out, Violation('oracle', o, case={'kind': 'parse', 'value': v}, observed=i))
         return out
 
+    # -- default rule on every underscore shape of a short name (deterministic, first)
+    def check_name_shapes(self) -> List[Violation]:
+        out: List[Violation] = []
+        objs = lib.run_impl_worker('c13_privacy.py', [{'objects': 1, 'system': 'shapes'}])[0]
+        fulls = [o[0] for o in objs]
+        names = sorted(set(o[1] for o in objs))
+        # every shape must really be there, as several kinds of object
+        want_names = set('_' * a + core + '_' * b for a in range(4) for b in range(4) for core in ('', 'x')) - {''}
+        missing = want_names - set(names)
+        if missing:
+            raise RuntimeError('name-shape System lacks the short names %s' % sorted(missing))
+        self.stats['shape_objects'] = len(objs)
+        self.stats['shape_names'] = len(want_names)
+        rule_lists = [[], [[0, 'zzz.*']], [[2, 'pkg.mod.Cls'], [1, 'nomatch?']], [[0, 'shp.*.nothing'], [2, 'shp']],
+                      [[1, 'shp.?'], [0, '*.*.*.*.*']], [[2, 'other.**'], [0, '[!s]**'], [1, 'shp.funcs.x.*']]]
+        cases = [{'system': 'shapes', 'rules': rl, 'queries': [['obj', f] for f in fulls]} for rl in rule_lists]
+        impl = lib.run_impl_worker('c13_privacy.py', cases, jobs=len(cases))
+        mod = self.model('qnmatch', [enc([5, [[l, p] for l, p in c['rules']], [[o[0], o[1], o[2], o[3]] for o in obs]])
+                                     for c, obs in zip(cases, impl)])
+        for c, obs, m in zip(cases, impl, mod):
+            m = dec(m)
+            for k, (o, mm) in enumerate(zip(obs, m)):
+                self.evaluations += 1
+                lead = len(o[1]) - len(o[1].lstrip('_'))
+                trail = len(o[1]) - len(o[1].rstrip('_'))
+                self.count('shape_%d_%d' % (min(lead, 3), min(trail, 3)))
+                case = {'kind': 'privacy', 'system': 'shapes', 'rules': c['rules'], 'queries': [c['queries'][k]], 'index': 0}
+                if mm != o[4]:
+                    self.add(out, Violation('correspondence', 'Model.Privacy and the real privacyClass disagree on %s (default rule)'
+                                            % o[0], case=case, expected=mm, observed=o[4]))
+                pv = privacy_violation(case, o)
+                if pv:
+                    self.add(out, pv)
+        self.sample({'system': 'shapes', 'rules': [], 'queries': 'all %d objects; short names %s' % (len(objs), names)})
+        return out
+
     # -- privacy
     def privacy_cases(self) -> List[dict]:
         r = self.rng
@@ -772,7 +809,7 @@ class Check(PropertyCheck):
             print('property  :', o or 'holds on this input')
             return 1 if o else 0
         if kind == 'privacy':
-            obs = lib.run_impl_worker('c13_privacy.py', [{'rules': c['rules'], 'queries': c['queries']}])[0]
+            obs = lib.run_impl_worker('c13_privacy.py', [{'rules': c['rules'], 'queries': c['queries'], 'system': c.get('system', 'main')}])[0]
             rc = 0
             print('rules (command-line order):', [(LEVELS[l], p) for l, p in c['rules']])
             for k, o in enumerate(obs):
